@@ -115,6 +115,23 @@ func (Scenario) Execute(p kernel.Plan, rec *kernel.Rec) {
 			break
 		}
 	}
+	if rec.Focus == "C14" && !w.fatal() {
+		reps, blocks, err := w.c.CheckReplicas(p.Cfg["keyseed"], nil)
+		if err != nil {
+			rec.HarnessFail("replica: " + err.Error())
+		}
+		rec.Fault("env.fresh_instance")
+		rec.Fault("node.crash.replica")
+		rec.ProbeN("replica.blocks", blocks)
+		rec.SetNontrivial()
+		for _, r := range reps {
+			if r.Class == "halt" {
+				rec.Violate("C14", "replica_halt", r.Kind, "replica (%s) of the ag world's chain: %s", r.Kind, r.Detail)
+			} else {
+				rec.Violate("C14", "replica_divergence", r.Class, "replica (%s) of the ag world's chain diverges: %s", r.Kind, r.Detail)
+			}
+		}
+	}
 	rec.AddSim(int64(w.now.Sub(start) / time.Second))
 }
 
